@@ -303,6 +303,11 @@ def r_binomial(n, k):
     return EQ(binomial(n, k))
 
 
+def r_orderless_range(a, b):
+    """from a towards b, b excluded, counting up or down; empty when they are equal"""
+    return EQ(list(range(a, b, 1 if a <= b else -1)))
+
+
 def r_totient(n):
     if n == 0:
         return SKIP("totient is defined for positive integers")
@@ -418,6 +423,7 @@ LAWS = [
     ("lcm-of-list", "∆Ŀ", 1, "pair-list", r_lcm),
     ("factorial", "¡", 1, "n-small", r_factorial),
     ("binomial", "ƈ", 2, "pair-binomial", r_binomial),
+    ("orderless-range", "r", 2, "pair-binomial", r_orderless_range),
     ("totient", "∆ṫ", 1, "n", r_totient),
     ("next-prime", "∆Ṗ", 1, "n", r_next_prime),
     ("is-square", "∆²", 1, "n", r_is_square),
@@ -774,6 +780,7 @@ def run_pair(acc, a, b, binom=True, literal=True):
         run_law(acc, name, [a, b], vs)
     if binom:
         run_law(acc, "binomial", [a, b], vs)
+        run_law(acc, "orderless-range", [a, b], vs)
 
 
 def nontrivial(args):
